@@ -182,6 +182,12 @@ CHECKS = {
         text='Every result object inside the bounds is built on the real classes and must expose its columns in parameter-name order, its means must equal the exact weighted averages and its intervals must be admissible weighted quantiles; BOLFI samples must be the chain-by-chain concatenation of chain[warmup:] (distinct numbers per cell, four memory layouts). Every sequence of pkl/csv/json saves and queries must leave all 17 accessors unchanged and every file must read back to the same samples, including a float64/int64 text round-trip alphabet. ESS and split R-hat must equal their formulas and stay invariant under four binary-exact affine maps and all chain permutations. Real seeded Rejection and SMC results go through the same oracle.',
         note='Trusted: fractions, stdlib json/csv/pickle, numpy array construction; rtol 1e-9 only where float and exact formulas are compared; quantile alpha widened by 1e-9 on boundaries; ESS cases within 1e-9 of the truncation sign change and zero-variance chains counted, not judged. Univariate float64/int64 columns, n <= 5, <= 4 parameters, <= 4 chains, length <= 8; idata and plotting not exercised; file key/column order not demanded.',
         design_ref='4 C16'),
+    'C08': dict(
+        level='exploration',
+        technique='exhaustive product enumeration of (graph shape x distribution template per node x naming x form x requested parameter list) with the real ModelPrior evaluated on a complete value grid V^dim, decided by the direct product of scipy.stats conditional densities and their closed-form log-derivatives',
+        text='Every 1-3 parameter hierarchy inside the template alphabet is built as a real ElfiModel; for the default list, every permutation and every ancestrally closed subset, pdf and logpdf are compared at every grid point (interior, exact support end points, outside, +-inf) with the product of conditional scipy densities, zero and -inf sets exactly. Input-form and shape rules, rvs (sizes None/1/3, seeded and global generator: positive density, shape) and gradient_logpdf (default, scalar and per-dimension stepsize; float and integer points) are decided on a sub-family.',
+        note='Trusted: scipy.stats densities (elfi calls the same functions: the check decides graph composition, argument order and shape handling); closed-form derivatives self-tested against a 5-point stencil. Excluded: subsets with a parent outside the subset, points where a conditional is nan/inf, a node repeated as two arguments of one child. Bounds: 875 / 10 750 models, 10 / 15 grid values.',
+        design_ref='4 C08'),
     'C15': dict(
         level='model_checking',
         technique='explicit-state BFS to closure over the real get_sub_seed cache states (all index requests in every '
